@@ -20,6 +20,7 @@ type env struct {
 	x       *cklib.Ctx
 	ev      *ckks.Evaluator
 	evk     rlwe.EvaluationKeySet
+	evNone  *ckks.Evaluator // evaluator created without any evaluation key
 	ci      bool
 	k       int // primes consumed per rescale (1, or 2 in the 128-bit precision mode)
 	maxLvl  int
@@ -62,6 +63,7 @@ func newEnv(seed uint64, cf cklib.Cfg) *env {
 	}
 	e.evk = rlwe.NewMemEvaluationKeySet(x.Rlk, x.GaloisKeys(gals)...)
 	e.resetEvaluator()
+	e.evNone = ckks.NewEvaluator(x.Params, nil)
 	prec := x.Params.EncodingPrecision()
 	_ = prec
 
